@@ -399,4 +399,119 @@ theorem Rel.bind {s rs env} (h : Rel s rs env) (id : Nat) (hid : id < rs.frames.
     · exact h.nofn i
   · exact Chain.set_vars hfr _ h.chain
 
+/-! ## Frames only grow, parents never change -/
+
+/-- `rs'` extends `rs`: every frame of `rs` is still there with the same parent. -/
+def FramesExt (rs rs' : Ref.St) : Prop :=
+  ∀ (i : Nat) (fr : Ref.Frame), rs.frames[i]? = some fr →
+    ∃ fr' : Ref.Frame, rs'.frames[i]? = some fr' ∧ fr'.parent = fr.parent
+
+theorem FramesExt.refl (rs : Ref.St) : FramesExt rs rs := fun _ fr h => ⟨fr, h, rfl⟩
+
+theorem FramesExt.trans {a b c : Ref.St} (h₁ : FramesExt a b) (h₂ : FramesExt b c) : FramesExt a c := by
+  intro i fr h
+  obtain ⟨fr', h', hp'⟩ := h₁ i fr h
+  obtain ⟨fr'', h'', hp''⟩ := h₂ i fr' h'
+  exact ⟨fr'', h'', hp''.trans hp'⟩
+
+theorem FramesExt.setVar (rs : Ref.St) (id : Nat) (x : String) (v : Val) : FramesExt rs (Ref.setVar rs id x v) := by
+  intro i fr h
+  unfold Ref.setVar
+  cases hid : rs.frames[id]? with
+  | none => exact ⟨fr, h, rfl⟩
+  | some fr0 =>
+    simp only
+    by_cases hi : id = i
+    · subst hi
+      rw [hid] at h; cases h
+      exact ⟨_, List.getElem?_set_self (lt_of_getElem?_some hid), rfl⟩
+    · exact ⟨fr, by rw [List.getElem?_set_ne hi]; exact h, rfl⟩
+
+theorem FramesExt.newFrame (rs : Ref.St) (env : Nat) : FramesExt rs (Ref.newFrame rs env).2 := by
+  intro i fr h
+  refine ⟨fr, ?_, rfl⟩
+  show (rs.frames ++ [_])[i]? = some fr
+  rw [List.getElem?_append_left (lt_of_getElem?_some h)]; exact h
+
+theorem FramesExt.trace_irrel {rs rs' : Ref.St} (h : FramesExt rs rs') (tr : List String) :
+    FramesExt { rs with trace := tr } rs' := h
+
+/-- a static chain survives the growth of the frame table -/
+theorem Chain.ext {frames frames' : List Ref.Frame}
+    (hext : ∀ (i : Nat) (fr : Ref.Frame), frames[i]? = some fr →
+      ∃ fr' : Ref.Frame, frames'[i]? = some fr' ∧ fr'.parent = fr.parent) :
+    ∀ {env lin}, Chain frames env lin → Chain frames' env lin := by
+  intro env lin h
+  induction h with
+  | root fr hf hp =>
+    obtain ⟨fr', hf', hp'⟩ := hext 0 fr hf
+    exact Chain.root fr' hf' (hp'.trans hp)
+  | cons env p fr rest hf hp hlt _ ih =>
+    obtain ⟨fr', hf', hp'⟩ := hext env fr hf
+    exact Chain.cons env p fr' rest hf' (hp'.trans hp) hlt ih
+
+/-! ## Opening and closing a scope -/
+
+/-- what `AddScopeInstr` does -/
+def _root_.ZygoVerif.VM.St.pushScope (s : St) : St :=
+  { s with scopes := s.scopes ++ [({} : Scope)], linear := some s.scopes.length :: s.linear, pc := s.pc + 1 }
+
+/-- what `RemoveScopeInstr` does (on a non-empty scope stack) -/
+def _root_.ZygoVerif.VM.St.popScope (s : St) : St :=
+  { s with pc := s.pc + 1, linear := s.linear.tail }
+
+theorem scopeOf_pushScope (s : St) (i : Nat) :
+    scopeOf s.pushScope i = if i < s.scopes.length then scopeOf s i else {} := by
+  show (s.scopes ++ [({} : Scope)]).getD i {} = _
+  simp only [List.getD_eq_getElem?_getD, scopeOf]
+  by_cases hi : i < s.scopes.length
+  · rw [List.getElem?_append_left hi, if_pos hi]
+  · rw [if_neg hi]
+    by_cases hi' : i = s.scopes.length
+    · subst hi'; simp
+    · rw [List.getElem?_eq_none (by simp; omega)]; rfl
+
+/-- `addScope` on the VM, `newFrame` in the reference evaluator -/
+theorem Rel.pushScope {s rs env} (h : Rel s rs env) :
+    Rel s.pushScope (Ref.newFrame rs env).2 rs.frames.length := by
+  have hlt := h.chain.lt
+  refine ⟨?_, ?_, ?_, ?_, h.heap, h.trace, h.fnpar, h.fnclo⟩
+  · show (s.scopes ++ [_]).length = (rs.frames ++ [_]).length
+    simp [h.len]
+  · intro i x
+    rw [scopeOf_pushScope]
+    show _ = ((rs.frames ++ [_]).getD i {}).vars.lookup x
+    by_cases hi : i < s.scopes.length
+    · rw [if_pos hi, List.getD_eq_getElem?_getD, List.getElem?_append_left (by rw [← h.len]; exact hi)]
+      have := h.vars i x
+      rw [List.getD_eq_getElem?_getD] at this
+      exact this
+    · rw [if_neg hi, List.getD_eq_getElem?_getD]
+      by_cases hi' : i = rs.frames.length
+      · subst hi'; simp
+      · rw [List.getElem?_eq_none (by simp; rw [← h.len] at hi' ⊢; omega)]; rfl
+  · intro i
+    rw [scopeOf_pushScope]
+    split
+    · exact h.nofn i
+    · rfl
+  · show Chain (rs.frames ++ [_]) rs.frames.length (some s.scopes.length :: s.linear)
+    rw [h.len]
+    refine Chain.cons rs.frames.length env { parent := some env } s.linear (by simp) rfl hlt ?_
+    exact Chain.ext (fun i fr hf => ⟨fr, by rw [List.getElem?_append_left (lt_of_getElem?_some hf)]; exact hf, rfl⟩) h.chain
+
+theorem Chain.tail {frames : List Ref.Frame} {fr env : Nat} {lin : List (Option Nat)} (h : Chain frames fr lin)
+    (f : Ref.Frame) (hf : frames[fr]? = some f) (hp : f.parent = some env) : Chain frames env lin.tail := by
+  cases h with
+  | root fr0 h0 hp0 => rw [hf] at h0; cases h0; rw [hp] at hp0; cases hp0
+  | cons _ p fr0 rest h0 hp0 hlt hrest =>
+    rw [hf] at h0; cases h0
+    rw [hp] at hp0; cases hp0
+    exact hrest
+
+/-- `removeScope`: back in the parent environment -/
+theorem Rel.popScope {s rs fr env} (h : Rel s rs fr) (f : Ref.Frame) (hf : rs.frames[fr]? = some f)
+    (hp : f.parent = some env) : Rel s.popScope rs env :=
+  ⟨h.len, h.vars, h.nofn, h.chain.tail f hf hp, h.heap, h.trace, h.fnpar, h.fnclo⟩
+
 end ZygoVerif.Sim
